@@ -233,6 +233,33 @@ def run(rep, tier, seed):
                     continue
                 if not np.allclose(a, bb, rtol=tol, atol=tol):
                     fails.append((case, f"{sname}: variable {n0} (renamed {n2}) = {a} in the original and {bb} after reordering / renaming"))
+    # ---- renaming a variable of a finite-difference model to the name the generated code gives the previous-step vector (y_0):
+    #      the name is refused, or the model means the same as under any other name
+    try:
+        from Solverz import Model, Var, Eqn, AliasVar, made_numerical
+        def fd_model(vn):
+            m = Model()
+            setattr(m, vn, Var(vn, [1.0, 0.5]))
+            setattr(m, vn + "_prev", AliasVar(vn, init=getattr(m, vn)))
+            m.e = Eqn("e", getattr(m, vn) - getattr(m, vn + "_prev") + 0.1 * getattr(m, vn))
+            eqs, y0 = lang.quiet(m.create_instance)
+            return lang.quiet(made_numerical, eqs, y0, sparse=True), y0
+        ref_nd, ref_y0 = fd_model("q")
+        yv, yp = np.array([0.9, 0.4]), np.array([1.0, 0.5])
+        F_ref = np.asarray(ref_nd.F(0.0, yv, ref_nd.p, yp), dtype=float)
+        for vn in ("y_0", "y_1"):
+            try:
+                nd_r, _ = fd_model(vn)
+            except Exception:  # noqa — refused loudly
+                continue
+            F_r = np.asarray(nd_r.F(0.0, yv, nd_r.p, yp), dtype=float)
+            stats["reserved_prev_names"] = stats.get("reserved_prev_names", 0) + 1
+            if not np.allclose(F_r, F_ref, rtol=1e-12, atol=1e-14):
+                fails.append((dict(original="FDAE q - q_prev + 0.1 q", variant=f"the variable renamed to {vn}"),
+                              f"renaming the variable of a finite-difference model to {vn} changes F from {F_ref} to {F_r} "
+                              f"(the previous-step argument of the generated function is overwritten)"))
+    except Exception as ex:  # noqa
+        rep.notes.append(f"reserved-name probe: {type(ex).__name__}: {str(ex)[:100]}")
     # ---- start values given by an expression (Var(init=...)) over a parameter and a variable: the value must not depend on how the
     #      names of the two sort
     from Solverz import Model, Var, Param, Eqn
